@@ -36,5 +36,6 @@ LEVEL_TEXT = ("Exploration of real executions: every history of the quantifier's
               "recorded client-boundary history (unique job ids, drain at the end) decides no-loss / "
               "exactly-once. Depth 8 is covered only by sampling.")
 LEVEL_NOTE = ("Trusts the in-memory socket, the quiescence detector and the 300-line sequential model; "
-              "interleavings deeper than the bound and real TCP reordering are not covered.")
+              "interleavings deeper than the bound are covered only by sampling; a loopback-TCP stress of the real "
+              "qserve process with OS-scheduled clients runs as extra shards.")
 TECHNIQUE = "recorded history + executable sequential model (offline conservation/exactly-once checker), bounded-exhaustive and random schedules on the real gevent server"
